@@ -19,7 +19,7 @@ func init() {
 		ID:      "C17",
 		Run:     runC17,
 		NeedSSA: true,
-		Level:   "Static analysis (guard prover on the width-copy helper, may-alias/mutation analysis of the builder's arguments on go/ssa, closed-form abstract interpretation of the window-mask helper, error-propagation and mask-check rules on the typed syntax). Decides five NECESSARY clauses of the property: nopanic — in the helper that right-aligns the big integer into a width-sized slice every index, slice and allocation site is proved in range from the dominating guards (a value wider than the field, or negative, takes the error return instead of the copy); nomutate — nothing derived from the caller's value/mask arguments is written through (in particular no receiver-mutating math/big method on a pointer derived from the argument), stored, sent or returned; errprop — every call in the builder that can fail has its error bound to a variable, tested by the next statement and returned (nil value, non-nil error), and every return of the builder has exactly one of (value, error) nil; maskform — on every feasible path the window-mask helper returns the closed form 'length ones starting at bit start' (math/big and machine-word operations evaluated on closed forms, every shift proved not to lose bits); maskcheck — the builder compares the value with value AND mask (or tests value AND-NOT mask) and returns an error on a difference. NOT decided (no static argument in reach): that the shifted value equals the input placed at the window under each of the three calling conventions, the width bookkeeping for masked lookups, and byte-agreement with the dedicated register constructor.",
+		Level:   "Static analysis (guard prover on the width-copy helper, may-alias/mutation analysis of the builder's arguments on go/ssa, closed-form abstract interpretation of the window-mask helper, error-propagation and mask-check rules on the typed syntax). Decides five NECESSARY clauses of the property: nopanic — in the helper that right-aligns the big integer into a width-sized slice every index, slice and allocation site is proved in range from the dominating guards (a value wider than the field, or negative, takes the error return instead of the copy); nomutate — nothing derived from the caller's value/mask arguments is written through (in particular no receiver-mutating math/big method on a pointer derived from the argument), stored, sent or returned; errprop — every call in the builder that can fail has its error bound to a variable, tested by the next statement and returned (nil value, non-nil error), and every return of the builder has exactly one of (value, error) nil; maskform — on every feasible path the window-mask helper returns the closed form 'length ones starting at bit start' (math/big and machine-word operations evaluated on closed forms, every shift proved not to lose bits); maskcheck — the builder compares the value with value AND mask (or tests value AND-NOT mask) and returns an error on a difference. NOT decided (no static argument in reach): that the shifted value equals the input placed at the window under each of the three calling conventions, the width bookkeeping for masked lookups, and byte-agreement with the dedicated register constructor. maskcheck also requires that the value, the mask and their AND are not written between the AND and the comparison (no second try that accepts what the first comparison refused).",
 		Assumptions: []string{
 			"math/big and reflect models in checker/alias.go (which methods mutate their receiver, which results alias their operands)",
 			"(*big.Int).Bytes returns the magnitude's big-endian bytes (length >= 0)",
